@@ -8,8 +8,10 @@ import (
 	"time"
 
 	"github.com/gopcua/opcua"
+	"github.com/gopcua/opcua/id"
 	"github.com/gopcua/opcua/server"
 	"github.com/gopcua/opcua/ua"
+	"github.com/gopcua/opcua/uasc"
 	"verifrt/driver"
 	"verifrt/vnet"
 	"verifrt/vrt"
@@ -23,6 +25,10 @@ type c27Params struct {
 	Script  string `json:"script"`   // which application threads run inside the window
 	FaultAt int    `json:"fault_at"` // >0: the client's connection is reset at this client network operation counted from the window start
 	Delay   bool   `json:"delay_bounded"`
+	// PublishErrors > 0: the server's Publish service is scripted: it answers that many PublishRequests with a
+	// PublishResponse whose service result is Bad and whose subscription id is 0 (an error that concerns every
+	// subscription), then keep-alives; script E runs against it
+	PublishErrors int `json:"publish_errors"`
 }
 
 type c27Obs struct {
@@ -44,7 +50,30 @@ func c27Body(p c27Params) func() {
 		c27obs = obs
 		ctx := context.Background()
 		vrt.SetTag("server")
-		e := startServer(ctx, 1)
+		var e *env
+		if p.PublishErrors > 0 {
+			served := 0
+			var seq uint32
+			e = startServerWith(ctx, 1, func(s *server.Server) {
+				s.RegisterHandler(id.PublishRequest_Encoding_DefaultBinary, func(sc *uasc.SecureChannel, r ua.Request, reqID uint32) (ua.Response, error) {
+					req := r.(*ua.PublishRequest)
+					hdr := &ua.ResponseHeader{Timestamp: time.Now(), RequestHandle: req.RequestHeader.RequestHandle, ServiceDiagnostics: &ua.DiagnosticInfo{}, StringTable: []string{}, AdditionalHeader: ua.NewExtensionObject(nil)}
+					time.Sleep(100 * time.Millisecond)
+					served++
+					subID := uint32(1)
+					if served <= p.PublishErrors {
+						hdr.ServiceResult = ua.StatusBadInternalError
+						subID = 0
+					}
+					seq++
+					return &ua.PublishResponse{ResponseHeader: hdr, SubscriptionID: subID,
+						NotificationMessage:      &ua.NotificationMessage{SequenceNumber: seq, PublishTime: time.Now(), NotificationData: []*ua.ExtensionObject{}},
+						AvailableSequenceNumbers: []uint32{}, Results: make([]ua.StatusCode, len(req.SubscriptionAcknowledgements)), DiagnosticInfos: []*ua.DiagnosticInfo{}}, nil
+				})
+			})
+		} else {
+			e = startServer(ctx, 1)
+		}
 		vrt.SetTag("client")
 		c := connect(ctx, opcua.AutoReconnect(true), opcua.ReconnectInterval(time.Second), opcua.RequestTimeout(5*time.Second))
 		notifs := make(chan *opcua.PublishNotificationData, 64)
@@ -137,6 +166,20 @@ func c27Body(p c27Params) func() {
 				}
 			})
 		}
+		if strings.Contains(p.Script, "E") { // two threads subscribing and cancelling while the publish loop reports an error to every subscription
+			for k := 0; k < 2; k++ {
+				k := k
+				run(func() {
+					s, err := c.Subscribe(ctx, newParams(), notifs)
+					note(fmt.Sprintf("E%d.subscribe", k), err)
+					if err != nil {
+						return
+					}
+					time.Sleep(150 * time.Millisecond)
+					note(fmt.Sprintf("E%d.cancel", k), s.Cancel(ctx))
+				})
+			}
+		}
 		if strings.Contains(p.Script, "D") {
 			// the application handles its notifications and makes its calls in one goroutine, over an
 			// unbuffered channel: while it deals with one notification the next one is waiting to be handed over
@@ -192,7 +235,11 @@ func c27Body(p c27Params) func() {
 			obs.probeAt = vrt.Now()
 			e.ns.SetAttribute(e.nodeID(0), ua.AttributeIDValue, server.DataValueFromValue(want))
 			e.ns.ChangeNotification(e.nodeID(0))
-			deadline := time.After(time.Hour)
+			wait := time.Hour
+			if p.PublishErrors > 0 {
+				wait = 5 * time.Second // the scripted server only sends keep-alives: progress is judged by the PublishRequests on the wire
+			}
+			deadline := time.After(wait)
 		wait:
 			for {
 				select {
@@ -254,7 +301,7 @@ func c27Scenarios(thorough bool) []driver.Scenario {
 	var out []driver.Scenario
 	add := func(p c27Params, bound int) {
 		out = append(out, driver.Scenario{
-			Name:   fmt.Sprintf("c27/script=%s/fault_at=%d/delay_bounded=%v", p.Script, p.FaultAt, p.Delay),
+			Name:   fmt.Sprintf("c27/script=%s/fault_at=%d/delay_bounded=%v", p.Script, p.FaultAt, p.Delay) + map[bool]string{true: fmt.Sprintf("/publish_errors=%d", p.PublishErrors), false: ""}[p.PublishErrors > 0],
 			Params: p, Cfg: vrt.Config{Horizon: int64(6 * time.Hour), MaxSteps: 5000000, DelayBounded: p.Delay, TimersFirst: p.Delay, SelectDeviations: true},
 			Body: c27Body(p), Check: c27Check(p), Bound: max(bound, 0), Sequential: bound < 0,
 		})
@@ -268,9 +315,22 @@ func c27Scenarios(thorough bool) []driver.Scenario {
 	}
 	// schedules
 	b := 1
+	add(c27Params{Script: "E", PublishErrors: 2}, -1)
+	add(c27Params{Script: "E", PublishErrors: 2, Delay: true}, b)
 	add(c27Params{Script: "D", Delay: true}, b)
 	add(c27Params{Script: "AB", Delay: true}, b)
 	add(c27Params{Script: "C", Delay: true}, b)
+	if !thorough {
+		// the quick tier's 100 s are shared: a cap per explored scenario and worker, so that each family gets its turn
+		for i := range out {
+			if !out[i].Sequential {
+				out[i].MaxExec = 25
+				if out[i].Params.(c27Params).Script == "E" {
+					out[i].MaxExec = 60
+				}
+			}
+		}
+	}
 	if thorough {
 		add(c27Params{Script: "ABC", Delay: true}, 1)
 		add(c27Params{Script: "AB", FaultAt: 6, Delay: true}, 1)
